@@ -680,7 +680,9 @@ Print Assumptions C05_db_insert_or_replace_key_value_preserves_stored_db.
    _partial — STILL MISSING for C05_db_operations_preserve_stored_db: insert_alias / insert_new_alias / remove_alias (the
    multi_map.rs algorithm over the two alias tables: needs C19's PInv as part of the relation), insert_index / remove_index
    and the index updates of insert_key_value / insert_or_replace_key_value / remove_* for an INDEXED key (DbIndexes: a vector
-   of (value index, multi-map)), remove_edge / remove_node with their cascades, remove_keys / remove_all_values,
+   of (value index, multi-map)), DbImpl's remove_edge / remove_node (their GRAPH part is proved below: GraphImpl::remove_edge in
+   full, GraphImpl::remove_node for a node without edges; the cascade over a node's edges and the removal of the element's
+   properties and alias are not), remove_keys / remove_all_values,
    transactions + undo (rollback replays the inverse commands: the same operations), shrink_to_fit; and that the side
    conditions hold of every reachable database (C08's wf implies so_graph_ok / so_edge_ok up to the capacity bound). *)
 Theorem C05_db_core_operations_preserve_stored_db_partial :
@@ -721,3 +723,47 @@ Example C05_db_sample_core_operations :
   load_db sy_store 1 = Some (clear_undo sy_db).
 Proof. exact sy_sample. Qed.
 Print Assumptions C05_db_sample_core_operations.
+
+(* ---- graph.rs REMOVALS, graph component only (theories/StoredDbOpsGraph3/4.v) ----
+   GraphImpl::remove_edge and GraphImpl::remove_node as programs over the storage (so_graph_remove_edge,
+   so_graph_remove_node: validate_edge / validate_node — an invalid index is a no-op —, one storage transaction,
+   remove_from_edge / remove_to_edge = three reads, the head case or the `while` walk to the predecessor (two reads per
+   round, as the code), the degree counter; free_index = one read, five writes; node count - 1).  The `while` loops run on
+   fuel = capacity, as in Graph.v (running out = CErr, standing for non-termination).  "Graph only": the properties and
+   the alias of the removed element are removed by DbImpl (remove_all_values, aliases) — not covered; the statement is about
+   with_gr d G' for G' = Graph.remove_edge / Graph.remove_node of gr d.
+   remove_edge: FULL algorithm, every edge position in both lists.  Side condition so_remove_edge_ok (explicit; each part
+   a consequence of C08's wf): the slots visited are inside the arrays (the edge, its source / target, every slot of the
+   walk: prev_ok), the walks end within `capacity` rounds, the decremented counters stay i64 values.
+   remove_node: for a node WITHOUT edges (from = to = 0: both unlink loops run zero times) and node count >= 1; the
+   cascade over the node's edges (remove_from_edges / remove_to_edges are modelled in StoredDbOps.v) is NOT proved. *)
+From Agdb Require Import StoredDbOpsGraph3 StoredDbOpsGraph4.
+
+Theorem C05_db_remove_edge_graph_preserves_stored_db :
+  forall (fl : bool) root d w h e sp (Q : cres unit -> spec -> Prop),
+    stored_db_w (hp sp) root d w -> so_handles h w -> so_graph_ok (gr d) -> so_remove_edge_ok (gr d) e ->
+    (forall G', Graph.remove_edge (gr d) e = Some G' ->
+       forall s' sp', stored_db_w (hp sp') root (with_gr d G') (sd_with_graph w (sw_g w) s') -> sdepth sp' = sdepth sp ->
+         frame (hp sp) (hp sp') (sd_foot root w) (sd_foot root (sd_with_graph w (sw_g w) s')) -> Q (CrOk tt) sp') ->
+    cwp fl (so_graph_remove_edge (so_graph h) e) sp Q.
+Proof. exact so_remove_edge_stored. Qed.
+Print Assumptions C05_db_remove_edge_graph_preserves_stored_db.
+
+Theorem C05_db_remove_isolated_node_graph_preserves_stored_db :
+  forall (fl : bool) root d w h index sp (Q : cres unit -> spec -> Prop),
+    stored_db_w (hp sp) root d w -> so_handles h w -> so_graph_ok (gr d) ->
+    (is_node (gr d) index = true -> from (gr d) index = 0%Z /\ to (gr d) index = 0%Z /\ (1 <= tmeta (gr d) 0)%Z) ->
+    (forall G', remove_node (gr d) index = Some G' ->
+       forall s' sp', stored_db_w (hp sp') root (with_gr d G') (sd_with_graph w (sw_g w) s') -> sdepth sp' = sdepth sp ->
+         frame (hp sp) (hp sp') (sd_foot root w) (sd_foot root (sd_with_graph w (sw_g w) s')) -> Q (CrOk tt) sp') ->
+    cwp fl (so_graph_remove_node (so_graph h) index) sp Q.
+Proof. exact so_remove_isolated_node_stored. Qed.
+Print Assumptions C05_db_remove_isolated_node_graph_preserves_stored_db.
+
+(* non-vacuity: the hypotheses hold of the example database for its edge -3 (1 -> 2, the head of both lists) and
+   Graph.remove_edge computes a result *)
+Example C05_db_sample_remove_edge :
+  so_graph_ok (gr sx_db) /\ so_remove_edge_ok (gr sx_db) (-3)%Z /\ is_edge (gr sx_db) (-3)%Z = true /\
+  exists G', Graph.remove_edge (gr sx_db) (-3)%Z = Some G' /\ g_from G' = [0; 0; 0; 0]%Z /\ g_fmeta G' = [-3; 0; 0; -9223372036854775808]%Z.
+Proof. exact sy_remove_edge_sample. Qed.
+Print Assumptions C05_db_sample_remove_edge.
